@@ -54,7 +54,8 @@ theorem detect_tid_reach (next : Nat → Nat → Option Nat) :
 theorem detectAll_tid_zip (next : Nat → Nat → Option Nat) (fuel : Nat) :
     ∀ (evs : List Ev) (st st' : Lanes) (out : List Ev),
       detectAll .tid next fuel st evs = .ok (st', out) →
-      ∀ p ∈ evs.zip out, p.2.pid = p.1.pid ∧ p.2.isX = p.1.isX ∧ Reach (next p.1.pid) p.1.tid p.2.tid := by
+      ∀ p ∈ evs.zip out, p.2.pid = p.1.pid ∧ p.2.isX = p.1.isX ∧ Reach (next p.1.pid) p.1.tid p.2.tid ∧
+        p.2 = { p.1 with tid := p.2.tid } := by
   intro evs
   induction evs with
   | nil => intro st st' out h p hp; simp at hp
@@ -76,13 +77,13 @@ theorem detectAll_tid_zip (next : Nat → Nat → Option Nat) (fuel : Nat) :
       intro p hp
       simp only [List.singleton_append, List.zip_cons_cons, List.mem_cons] at hp
       rcases hp with hp | hp
-      · subst hp; exact ⟨rfl, rfl, hreach⟩
+      · subst hp; exact ⟨rfl, rfl, hreach, rfl⟩
       · exact hr p hp
     · injection hstep with hstep; injection hstep with h1 h2; subst h2
       intro p hp
       simp only [List.singleton_append, List.zip_cons_cons, List.mem_cons] at hp
       rcases hp with hp | hp
-      · subst hp; exact ⟨rfl, rfl, Reach.refl _⟩
+      · subst hp; exact ⟨rfl, rfl, Reach.refl _, rfl⟩
       · exact hr p hp
 
 /-- the families of the really built tid space are disjoint (`owns_unique`) -/
